@@ -307,7 +307,8 @@ class ScriptedOracle(ConvergenceController):
         o = r.script[r.pos]
         r.pos += 1
         L = S.levels[0]
-        L.status.residual = 0.0 if o.get('res') else 1.0
+        # "the residual is not at most the tolerance" has several floating-point faces: a finite value, infinity, not-a-number
+        L.status.residual = 0.0 if o.get('res') else (1.0, float('inf'), float('nan'))[r.pos % 3]
         if o.get('rs'):
             S.status.restart = True
         dtn = o.get('dtn', 0)
